@@ -79,6 +79,13 @@ class Stream:
     def close(self):
         self.closed = True
 
+    def _eof_read(self):
+        # unwinding assertion for "keeps reading an exhausted stream"
+        self.reads_after_eof += 1
+        if self.reads_after_eof > 40:
+            raise Unwind('%d reads after end-of-stream'
+                         % self.reads_after_eof)
+
     def read(self, n=-1):
         self.calls += 1
         if self.calls > self.max_reads:
@@ -93,7 +100,7 @@ class Stream:
         elif n <= 0:
             return b''
         if self.at_end():
-            self.reads_after_eof += 1
+            self._eof_read()
             return b''
         pos = E(self.pos)
         lim = E(self.limit)
@@ -112,7 +119,7 @@ class Stream:
     def _read_conc(self, n):
         if n <= 0 or self.pos >= self.limit:
             if n > 0:
-                self.reads_after_eof += 1
+                self._eof_read()
             return b''
         if n == 1:
             out = self.data[self.pos:self.pos + 1]
